@@ -346,6 +346,34 @@ def check_copy(ctx, o, how, hist):
         bad("liveness-raises", "valid operations on the copy raised %r" % (e,))
     if state_of(o) != before:
         bad("original-changed", "operating on the copy changed the original")
+    # a copy of the (already used) copy, by a different mechanism
+    if how in ("pickle2", "deepcopy", "clone"):
+        how2 = {"pickle2": "deepcopy", "deepcopy": "clone",
+                "clone": "pickle2"}[how]
+        try:
+            st = state_of(d)
+            d2 = do_copy(d, how2)
+            if state_of(d2) != st:
+                bad("copy-of-copy", "%s of the %s differs from it" % (how2,
+                                                                      how))
+            CALLS.pop(id(d2), None)
+            d2.xs.append(6)
+            got = CALLS.get(id(d2), {"static": 0, "observe": 0})
+            if got["static"] != 1 or got["observe"] != 1:
+                bad("copy-of-copy-handlers", "handlers of the %s of the %s "
+                    "were called %r for one append" % (how2, how, got))
+            try:
+                d2.xs.append("bad")
+                bad("copy-of-copy-not-validating", "accepted an invalid item")
+            except TraitError:
+                pass
+            if d2.total != sum(d2.xs):
+                bad("copy-of-copy-property", "property stale")
+            if list(d.xs) == list(d2.xs):
+                bad("copy-of-copy-shared", "the copies share their list")
+        except Exception as e:
+            bad("copy-of-copy-raises", "%s of the %s raised %r" % (how2, how,
+                                                                   e))
     return good
 
 
